@@ -8,6 +8,8 @@ COMMON = "Trusted: TLC, the Go driver's conversion between biogo values and spec
 
 SEQNOTE = "Trusted: the Go driver's observation of the containers through the public API (Row(i).At, Column/ColumnQL, Rows/Len/Start/End, Consensus). Column-stored alignments are exercised at offset 0 with >= 1 column; strand judged for RevComp/Reverse only."
 
+ALIGNNOTE = "Trusted: the driver's conversion of feat.Pair values to interval/score tuples and of letters to alphabet indices. Recorded findings (known_findings.json) are recognised per input by as-found operators and reported as KNOWN-FINDING lines."
+
 CHECKS = {
     "C11": dict(
         technique="TLA+ refinement check (TLC) of implementation-shaped sorter against abstract sorter; "
@@ -191,6 +193,43 @@ CHECKS = {
         note="Trusted: driver's reading of values through exported methods, pointer identity for locations. Zero-length "
              "exons with equal starts (unstable sort) are assumed away.",
         ref="DESIGN.md §6 C20"),
+    "C08": dict(
+        technique="TLC proves dynamic programming = maximum over all alignments (unmemoised enumeration) on a bounded "
+                  "domain; every recorded Align call is judged by TLC against that optimum; as-found operators recognise "
+                  "the recorded findings per input",
+        text="AlignDP.tla defines the best global, local and fitted alignment score twice: Brute enumerates every "
+             "alignment move by move, Opt is the three-layer recurrence folded row by row; AlignMC.tla checks Brute = Opt "
+             "for all sequence pairs of length <= 2 (3 thorough) over two letters, all small matrices and gap-open "
+             "values, both gap models, and refutes the claim that the code's three-state affine model is optimal. "
+             "The driver calls all six aligners on every pair of length <= 3 under random small-valued (symmetric and "
+             "asymmetric, tie-rich, zero-gap) matrices and on random DNA/protein pairs up to 60 (200 thorough) letters; "
+             "AlignTrace.tla recomputes the path's score and compares it with Opt (for the fitted aligners: among "
+             "alignments ending at the returned reference position).",
+        note=ALIGNNOTE, ref="DESIGN.md §6 C08/C09"),
+    "C09": dict(
+        technique="TLA+ predicates for path shape, abutment, bounds and per-pair scores, evaluated by TLC on every "
+                  "recorded Align call incl. quality-letter runs, align.Format rows and ill-typed inputs",
+        text="AlignTrace.tla requires of every recorded result: one monotone path (pairs abut in both sequences), each "
+             "pair an ungapped block, a gap in one sequence, or empty with zero score; global alignments span both "
+             "sequences, fitted ones the whole query, local ones stay in bounds; every reported pair score equals the "
+             "score recomputed from letters, matrix and gap parameters; quality-letter input gives the same pairs; "
+             "Format rows have equal length and degap to the aligned subsequences. 900 ill-typed calls (a letter outside "
+             "the alphabet at every position, other alphabet, no gap at index 0, mixed slice types, ragged / undersized "
+             "/ empty matrix) must return an error, never panic.",
+        note=ALIGNNOTE, ref="DESIGN.md §6 C08/C09"),
+    "C10": dict(
+        technique="TLA+ rolling-word state machine and counting-sort Build checked against declarative occurrences by TLC "
+                  "over all short sequences; emitted sequences and random long ones through the real index, judged by TLC",
+        text="Kmer.tla writes ForEachKmerOf (rolling 2-bit word, high-water mark of invalid letters) and Build (prefix sum, "
+             "placement) as they are coded and the occurrences declaratively; TLC checks that visits are exactly the valid "
+             "windows of every sub-range, buckets are exactly the occurrences in ascending order, frequencies match, absent "
+             "words are empty, and the word functions (KmerOf, Format, ComplementOf, GCof) agree with the string "
+             "operations, for all sequences up to length 6 (7-8 thorough) over {a,c,g,t,n,A}, k in {2,3}; three wrong "
+             "variants are refuted. Emitted sequences (MinKmerLen lowered), exhaustive k=4 and random sequences up to 5000 "
+             "letters, k 4..10, with runs of invalid bytes run through the real index; KmerTrace.tla judges every result.",
+        note="Trusted: the driver's dump of positions maps and callbacks; full maps judged up to 400 letters, longer "
+             "sequences on sampled words and ranges.",
+        ref="DESIGN.md §6 C10"),
 }
 
 NOT_YET = {}
